@@ -40,7 +40,9 @@ def fresh(cfg):
     t0, tf = cfg["span"]
     y0 = np.array([np.sin(t0), np.cos(t0)], dtype=dtype)
     tf_cfg = (2 * t0 - tf) if cfg.get("against") else tf        # 'against': configured with the mirrored span, every integrate call names its target
-    a = de.OdeSystem(f_osc, y0=y0, t=(dtype(t0), dtype(tf_cfg)), dt=dtype(cfg["dt0"]), rtol=dtype(cfg["tol"]), atol=dtype(cfg["tol"]), dense_output=True)
+    buf = y0.copy()         # the caller reuses its buffer after construction
+    a = de.OdeSystem(f_osc, y0=buf, t=(dtype(t0), dtype(tf_cfg)), dt=dtype(cfg["dt0"]), rtol=dtype(cfg["tol"]), atol=dtype(cfg["tol"]), dense_output=True)
+    buf[...] = dtype(77.0)
     a.method = method_of(cfg["method"])
     return a, y0, dtype
 
